@@ -180,6 +180,8 @@ class Session(object):
                 kw['joliet_bootcatfile'] = self._p('jol', a['cat'])
             if self.iso.udf_root is not None and a.get('catudf', True):
                 kw['udf_bootcatfile'] = self._p('udf', a['cat'])
+        if 'media' in a:
+            kw['media_name'] = a['media']
         for k in ('boot_load_size', 'platform_id', 'boot_info_table', 'efi', 'media_name',
                   'bootable', 'boot_load_seg'):
             if k in a:
@@ -238,7 +240,8 @@ class Session(object):
         always = self.iso._always_consistent  # pylint: disable=protected-access
         self.iso.close()
         self.backing = io.BytesIO(data)
-        self.iso = pycdlib.PyCdlib(always_consistent=always)
+        if not a.get('same', False):
+            self.iso = pycdlib.PyCdlib(always_consistent=always)
         self.iso.open_fp(self.backing)
 
     def do_Close(self, a):
